@@ -32,6 +32,8 @@ QUICK = [
               "TyNames": "<- TySome", "MaxN": "3", "MaxStk": "3", "MaxStmts": "1"}, None),
     ("cast", {"Fam": "<- FamCast", "LitPool": "<- LitsCast", "Names": "<- Names1", "BinOps": "<- Ops2",
               "MaxN": "3", "MaxStmts": "1"}, None),
+    ("castdot", {"Fam": "<- FamCastDot", "LitPool": "<- Lits2", "Names": "<- Names1", "Prelude": "<- PreData",
+                 "KeyPool": "<- Keys", "MaxN": "4", "MaxStk": "3", "MaxStmts": "1"}, None),
     ("moddef", {"Fam": "<- FamModDef", "LitPool": "<- Lits2", "Names": "<- Names2", "BinOps": "<- Ops2",
                 "FldNames": "<- Flds2", "MaxN": "5", "MaxStk": "2", "MaxCtx": "2", "MaxStmts": "2",
                 "MaxModStmts": "1"}, None),
